@@ -14,6 +14,7 @@ import (
 	"strings"
 	"time"
 
+	"cosmossdk.io/collections"
 	sdkmath "cosmossdk.io/math"
 	"github.com/cosmos/cosmos-sdk/client"
 	codectypes "github.com/cosmos/cosmos-sdk/codec/types"
@@ -78,6 +79,7 @@ type gen struct {
 	hist  *detx.History
 	obs   []detx.Obs
 	kinds [][]string // per block: the kind label of every transaction (diagnostics of a differing result)
+	lines []string   // per block: the compared observation line of the generator's own execution
 
 	vals     []detx.ValSpec
 	users    []detx.Key
@@ -103,6 +105,7 @@ type gen struct {
 	nSmall   int               // the last nSmall oracles bond the minimum: a proposal can drop several of them at once
 	lastGas  map[string]uint64 // gas used by the last successful transaction of a kind (boundary-biased gas limits)
 	probes   [][2]string       // (op line, observation) of UpdateProposalOracles probes against the real keeper
+	tallies  [][2]string       // (op line, observation) of gov Tally probes
 }
 
 // bridgeTok is a many-to-one coin registered by governance whose aliases are its bridge denominations.
@@ -416,6 +419,7 @@ func (g *gen) endBlock(dt time.Duration, note string) detx.Obs {
 	g.inj, g.injKind = nil, nil
 	g.hist.Blocks = append(g.hist.Blocks, b)
 	g.obs = append(g.obs, o)
+	g.lines = append(g.lines, blockLine(g.c, o))
 	var ks []string
 	for _, p := range g.pend {
 		ks = append(ks, p.kind)
@@ -917,6 +921,11 @@ func (g *gen) run() {
 		g.voteAllT(props[pi].id, props[pi].vote, pi != 2 && pi != 6 && pi != 7 && pi != 8)
 	}
 	g.endBlock(short, "votes")
+	// gov Tally of every proposal in its voting period, on a discarded branch: the real result against the sum of the
+	// contributions computed independently per validator
+	for _, pr := range props {
+		g.probeTally(pr.id)
+	}
 	// correspondence probes of UpdateProposalOracles on a discarded branch of the committed state (all oracles bonded)
 	g.probeUpdateOracles(dropSmall)
 	g.probeUpdateOracles(dropBig)
@@ -1118,6 +1127,90 @@ func (g *gen) probeUpdateOracles(newList []string) {
 		g.out.Count("probe-updateoracles:" + obs)
 	}
 	g.probes = append(g.probes, [2]string{op, obs})
+}
+
+// probeTally runs the real gov Tally of a proposal on a branch of the committed state and records an op line carrying
+// (a) the part accumulated while walking the votes in store order (delegators' own voting power) and (b) one contribution
+// vector per bonded validator that voted (shares after deductions * bonded / shares, split by the vote's weights), both
+// computed here independently of Tally; the Lean model adds them up (in any order) and truncates.
+func (g *gen) probeTally(id uint64) {
+	gk, sk := g.c.App.GovKeeper, g.c.App.StakingKeeper
+	ctx, _ := g.c.Ctx().CacheContext()
+	prop, err := gk.Proposals.Get(ctx, id)
+	if err != nil || prop.Status != govv1.StatusVotingPeriod {
+		return
+	}
+	type valInfo struct {
+		bonded     sdkmath.Int
+		shares     sdkmath.LegacyDec
+		deductions sdkmath.LegacyDec
+		vote       govv1.WeightedVoteOptions
+	}
+	vals := map[string]*valInfo{}
+	var order []string
+	_ = sk.IterateBondedValidatorsByPower(ctx, func(_ int64, v stakingtypes.ValidatorI) bool {
+		vals[v.GetOperator()] = &valInfo{bonded: v.GetBondedTokens(), shares: v.GetDelegatorShares(), deductions: sdkmath.LegacyZeroDec()}
+		order = append(order, v.GetOperator())
+		return false
+	})
+	zero := func() []sdkmath.LegacyDec {
+		return []sdkmath.LegacyDec{sdkmath.LegacyZeroDec(), sdkmath.LegacyZeroDec(), sdkmath.LegacyZeroDec(), sdkmath.LegacyZeroDec(), sdkmath.LegacyZeroDec()}
+	}
+	idx := map[govv1.VoteOption]int{govv1.OptionYes: 0, govv1.OptionAbstain: 1, govv1.OptionNo: 2, govv1.OptionNoWithVeto: 3}
+	addTo := func(vec []sdkmath.LegacyDec, power sdkmath.LegacyDec, opts govv1.WeightedVoteOptions) {
+		for _, o := range opts {
+			w, _ := sdkmath.LegacyNewDecFromStr(o.Weight)
+			vec[idx[o.Option]] = vec[idx[o.Option]].Add(power.Mul(w))
+		}
+		vec[4] = vec[4].Add(power)
+	}
+	base := zero()
+	rng := collections.NewPrefixedPairRange[uint64, sdk.AccAddress](id)
+	nVotes := 0
+	_ = gk.Votes.Walk(ctx, rng, func(key collections.Pair[uint64, sdk.AccAddress], vote govv1.Vote) (bool, error) {
+		nVotes++
+		voter := sdk.MustAccAddressFromBech32(vote.Voter)
+		if v, ok := vals[sdk.ValAddress(voter).String()]; ok {
+			v.vote = vote.Options
+		}
+		_ = sk.IterateDelegations(ctx, voter, func(_ int64, d stakingtypes.DelegationI) bool {
+			if v, ok := vals[d.GetValidatorAddr()]; ok {
+				v.deductions = v.deductions.Add(d.GetShares())
+				addTo(base, d.GetShares().MulInt(v.bonded).Quo(v.shares), vote.Options)
+			}
+			return false
+		})
+		return false, nil
+	})
+	render := func(vec []sdkmath.LegacyDec) string {
+		var p []string
+		for _, d := range vec {
+			p = append(p, d.BigInt().String())
+		}
+		return strings.Join(p, ":")
+	}
+	var contribs []string
+	for _, op := range order {
+		v := vals[op]
+		if len(v.vote) == 0 {
+			continue
+		}
+		c := zero()
+		addTo(c, v.shares.Sub(v.deductions).MulInt(v.bonded).Quo(v.shares), v.vote)
+		contribs = append(contribs, render(c))
+	}
+	g.rng.Shuffle(len(contribs), func(i, j int) { contribs[i], contribs[j] = contribs[j], contribs[i] })
+	cs := "-"
+	if len(contribs) > 0 {
+		cs = strings.Join(contribs, ";")
+	}
+	_, _, res, err := gk.Tally(ctx, prop)
+	if err != nil {
+		return
+	}
+	g.out.Count(fmt.Sprintf("probe-tally:votes=%d,validators-voted=%d", min(nVotes, 9), len(contribs)))
+	g.tallies = append(g.tallies, [2]string{fmt.Sprintf("tallyop %s | %s", render(base), cs),
+		fmt.Sprintf("%s:%s:%s:%s", res.YesCount, res.AbstainCount, res.NoCount, res.NoWithVetoCount)})
 }
 
 func mustAny(c crosschaintypes.ExternalClaim) *codectypes.Any {
